@@ -83,11 +83,19 @@ def lex_names(terms):
         elif t[0] == 'S':
             out.append(bytes(t[1]).decode('latin-1'))
         else:
-            out.append('r_' + bytes(t[1]).decode('latin-1'))
+            out.append(t[2] if len(t) > 2 and t[2] else 'r_' + bytes(t[1]).decode('latin-1'))
     return out
 
 
-def lex_tu(gid, terms):
+def lex_rules(nt, shape):
+    """right sides (as term indexes after the leading L) of the token-list grammar: 'list' = L -> L t_i (every token
+    sequence is a sentence); 'pairs' = L -> L t_i t_(i+1 mod n) (tokens come in fixed pairs: syntax errors naming terms)"""
+    if shape == 'pairs':
+        return [[i, (i + 1) % nt] for i in range(nt)]
+    return [[i] for i in range(nt)]
+
+
+def lex_tu(gid, terms, shape='list'):
     """L -> <empty> | L t_i  for every term: accepts every token sequence; every term and rule is observed."""
     o = ['#include "rt.hpp"', 'using namespace ctpg;', 'using vh::Node;', 'namespace G {', 'nterm<Node> n0("N0");']
     for i, t in enumerate(terms):
@@ -98,8 +106,11 @@ def lex_tu(gid, terms):
             o.append('auto t%d = typed_term(string_term(d%d), vh::TermF{%d});' % (i, i, i))
         else:
             o.append(carr('d%d' % i, t[1]))
-            o.append('auto t%d = typed_term(regex_term<d%d>(0), vh::TermF{%d});' % (i, i, i))
-    rl = ['        n0() >= vh::RuleF{0}'] + ['        n0(n0, t%d) >= vh::RuleF{%d}' % (i, i + 1) for i in range(len(terms))]
+            if len(t) > 2 and t[2]:
+                o.append('auto t%d = typed_term(regex_term<d%d>("%s"), vh::TermF{%d});' % (i, i, t[2], i))      # custom display name
+            else:
+                o.append('auto t%d = typed_term(regex_term<d%d>(0), vh::TermF{%d});' % (i, i, i))
+    rl = ['        n0() >= vh::RuleF{0}'] + ['        n0(n0, %s) >= vh::RuleF{%d}' % (', '.join('t%d' % k for k in rs), i + 1) for i, rs in enumerate(lex_rules(len(terms), shape))]
     o.append('auto make() { return new parser(n0,')
     o.append('    terms(%s),' % ', '.join('t%d' % i for i in range(len(terms))))
     o.append('    nterms(n0),')
@@ -109,11 +120,12 @@ def lex_tu(gid, terms):
     return '\n'.join(o) + '\n'
 
 
-def lex_tla_json(gid, terms):
+def lex_tla_json(gid, terms, shape='list'):
     nt = len(terms)
     tn = lex_names(terms) + ['<eof>', '<error_recovery_token>']
-    rules = [{'l': 0, 'r': [], 'prec': 0}] + [{'l': 0, 'r': [0, TB + i], 'prec': 0} for i in range(nt)]
-    texts = ['N0 <- '] + ['N0 <- N0 ' + tn[i] for i in range(nt)] + ['## <- N0']
+    rss = lex_rules(nt, shape)
+    rules = [{'l': 0, 'r': [], 'prec': 0}] + [{'l': 0, 'r': [0] + [TB + k for k in rs], 'prec': 0} for rs in rss]
+    texts = ['N0 <- '] + ['N0 <- N0 ' + ' '.join(tn[k] for k in rs) for rs in rss] + ['## <- N0']
     return {'id': gid, 'nnt': 1, 'nt': nt, 'root': 0, 'rules': rules, 'used': [1] * len(rules),
             'tprec': [0] * nt, 'tassoc': [0] * nt, 'tbytes': [0] * nt, 'tnames': tn, 'ntnames': ['N0', '##'], 'ruletext': texts,
             'lex': 'ref', 'lexterms': [{'kind': t[0], 'data': ([t[1]] if t[0] == 'C' else list(t[1]))} for t in terms],
